@@ -231,6 +231,90 @@ def mutate(rng, text, pcs):
     return b"".join(toks)
 
 
+# --------------------------------------------------------------------------- systematic parser-entry products
+
+TL1_CLASSES = [b"a", b"A", b"n.a", b"n.A", b"1", b"99999999999", b"#", b"#1a2b3c4d", b"(", b")", b"[", b"]", b"{", b"}", b"<", b">",
+               b":", b";", b".", b",", b"%", b"=", b"=>", b"?", b"*", b"+", b"!", b"@a", b"---types---", b"---functions---",
+               b"//c\n", b"-", b"Type", b""]
+TL1_SECOND = [b"a", b"A", b"1", b"#", b"(", b")", b"[", b"]", b"<", b">", b":", b";", b".", b",", b"%", b"=", b"?", b"*", b"+", b""]
+TL1_SECOND_QUICK = [b"a", b"A", b"1", b"#", b"(", b")", b"[", b"<", b":", b";", b"+", b""]
+TL1_CONTEXTS = [b"", b"@a ", b"a ", b"a#1a2b3c4d ", b"a {", b"a {t", b"a {t:", b"a {t:Type", b"a {t:Type} ", b"a x:", b"a x:n", b"a x:n.",
+                b"a x:n.1", b"a x:n.1? ", b"a x:! ", b"a x:% ", b"a x:( ", b"a x:(A ", b"a x:(A b ", b"a x:A< ", b"a x:A<b ", b"a x:A<b, ",
+                b"a x:[ ", b"a x:[y:int ", b"a x:n* ", b"a x:n*[ ", b"a x:1* ", b"a x:( 1 ", b"a x:( 1 + ", b"a x:1 + ", b"a x:1 + ( ",
+                b"a x:(A 1 + ", b"a x:A<1 + ", b"a = ", b"a = A ", b"a = A x ", b"a => ", b"a => A ", b"a => A 1 + ",
+                b"---functions---\na = ", b"---functions---\na = A ", b"a ? ", b"a ? = ", b"a = A; ", b"a x:int ", b"a int "]
+
+TL2_CLASSES = [b"a", b"A", b"n.a", b"n.A", b"1", b"99999999999", b"#", b"#1a2b3c4d", b"#00000000", b"[", b"]", b"<", b">", b":", b";", b".",
+               b",", b"=", b"=>", b"<=>", b"?", b"|", b"_", b"_a", b"@a", b"Type", b"//c\n", b"-", b""]
+TL2_SECOND = [b"a", b"A", b"n.a", b"1", b"#", b"#1a2b3c4d", b"[", b"]", b"<", b">", b":", b";", b",", b"=", b"=>", b"<=>", b"?", b"|", b"_", b"Type", b""]
+TL2_SECOND_QUICK = [b"a", b"1", b"#1a2b3c4d", b"[", b"]", b"<", b">", b":", b";", b",", b"=", b"|", b"?", b""]
+TL2_CONTEXTS = [b"", b"@a ", b"a ", b"a#1a2b3c4d ", b"a#00000000 ", b"a<", b"a<t", b"a<t:", b"a<t:Type", b"a<t:Type,", b"a<t:#>", b"a<t:Type> ",
+                b"a = ", b"a <=> ", b"a = x", b"a = x?", b"a = x:", b"a = x: v<", b"a = x:v<1", b"a = x:v<1,", b"a = x:v<int", b"a = x:[",
+                b"a = x:[1", b"a = x:[1]", b"a = x:[int]", b"a = | ", b"a = A ", b"a = A | ", b"a = A x:int | ", b"a = A int ", b"a = A x",
+                b"a = | A x:int ", b"a#1a2b3c4d x:int ", b"a#1a2b3c4d => ", b"a#1a2b3c4d => <=> ", b"a#1a2b3c4d => x:int ", b"a#1a2b3c4d => A | ",
+                b"a = _", b"a = _x:", b"a = _?", b"a = x:int ", b"a = x:int; ", b"a <=> v<", b"a <=> [", b"a = x:int // c\n"]
+
+
+def entry_products(rng, lang, quick):
+    """entry context x next two token classes: every parse function is entered with every class of first token"""
+    ctxs, c1, c2 = (TL1_CONTEXTS, TL1_CLASSES, TL1_SECOND) if lang == 1 else (TL2_CONTEXTS, TL2_CLASSES, TL2_SECOND)
+    if quick:
+        c2 = [x for x in c2 if x in (TL1_SECOND_QUICK if lang == 1 else TL2_SECOND_QUICK)]
+    else:
+        c2 = c1
+    out = []
+    for ctx in ctxs:
+        for a in c1:
+            for b in c2:
+                out.append(ctx + a + (b" " if a and b else b"") + b)
+    return out
+
+
+def arith_inputs(rng, lang, quick):
+    """numbers, '+' and parentheses (TL1) / numeric type arguments (TL2) in every position that parses them"""
+    out = []
+    if lang == 1:
+        frames = [(b"a x:", b"*[int] = A;"), (b"a x:(Tuple int ", b") = A;"), (b"a x:Vector<", b"> = A;"), (b"---functions---\nf = Foo ", b";"),
+                  (b"a ", b" = A;"), (b"a {t:Type} x:(T ", b" t) = A;"), (b"a x:%(Tuple int ", b") = A;"), (b"a x:n.0?", b"*[int] = A;"),
+                  (b"a x:[y:", b"*[int]] = A;"), (b"a => (Foo ", b");"), (b"a x:", b"")]
+        alpha = [b"1", b"+", b"(", b")", b"b", b"%", b"#", b"B", b"2147483648", b"4294967295", b"[", b"*"]
+    else:
+        frames = [(b"a = x:v<", b">;"), (b"a = x:[", b"]int;"), (b"a <=> v<", b">;"), (b"a#1a2b3c4d x:v<", b"> => int;"), (b"a = A v<", b"> | B;"),
+                  (b"a = x:", b";"), (b"a = x:v<", b"")]
+        alpha = [b"1", b",", b"<", b">", b"[", b"]", b"int", b"n.a", b"99999999999", b"Type", b"#", b"?"]
+    core = alpha[:7] if quick else alpha[:9]
+    seqs = [()]
+    for n_ in (1, 2, 3):
+        seqs += [tuple(x) for x in __import__("itertools").product(core, repeat=n_)]
+    for pre, post in frames:
+        for sq in seqs:
+            out.append(pre + b" ".join(sq) + post)
+    def expr(d):
+        r = rng.random()
+        if d > 3 or r < 0.35:
+            return [str(rng.choice([0, 1, 2, 7, 2147483647, 4294967294, 4294967295])).encode()]
+        if r < 0.6:
+            return [b"("] + expr(d + 1) + [b")"]
+        return expr(d + 1) + [b"+"] + expr(d + 1)
+    for _ in range(1200 if quick else 12000):
+        pre, post = rng.choice(frames)
+        if lang == 1:
+            e = expr(0)
+            r = rng.random()
+            if r < 0.6:      # one token replaced by a non-number / other token
+                e[rng.randrange(len(e))] = rng.choice(alpha + [b"", b"x.y", b"//c\n", b";", b"="])
+            elif r < 0.75:   # one token dropped
+                del e[rng.randrange(len(e))]
+            elif r < 0.85:   # truncated
+                e = e[:rng.randrange(len(e) + 1)]
+                post = b""
+        else:
+            e = [rng.choice(alpha) for _ in range(rng.randrange(1, 8))]
+        out.append(pre + rng.choice([b" ", b""]).join(e) + post)
+    return out
+
+
+
 def gen_inputs(ctx, lang):
     """list of (kind, text bytes, builtin, dirty)"""
     rng = ctx.rng
@@ -264,20 +348,24 @@ def gen_inputs(ctx, lang):
         for b2 in tri:
             for c in tri:
                 add("triple", bytes([a, b2, c]), (0, 0))
+    for t in entry_products(rng, lang, quick):
+        add("entry-product", t, (0, 0))
+    for t in arith_inputs(rng, lang, quick):
+        add("arith", t)
     # random bytes
-    for _ in range(1500 * scale):
+    for _ in range(1000 * scale):
         n = rng.choice([1, 2, 3, 4, 5, 8, 13, 21, 40, 64])
         add("random-bytes", bytes(rng.getrandbits(8) for _ in range(n)))
-    for _ in range(1500 * scale):
+    for _ in range(1000 * scale):
         n = rng.randrange(1, 60)
         add("alphabet-bytes", bytes(rng.choice(alphabet) for _ in range(n)))
     # token soups
-    for _ in range(4000 * scale):
+    for _ in range(2500 * scale):
         n = rng.randrange(1, 25)
         sep = rng.choice([b"", b"", b" ", b"\n"])
         add("token-soup", sep.join(rng.choice(pcs) for _ in range(n)))
     cpcs = clean_pieces(lang)
-    for _ in range(4000 * scale):
+    for _ in range(2500 * scale):
         n = rng.randrange(1, 25)
         sep = rng.choice([b" ", b" ", b"\n", b""])
         add("clean-token-soup", sep.join(rng.choice(cpcs) for _ in range(n)), (0, 0))
@@ -288,7 +376,7 @@ def gen_inputs(ctx, lang):
         if lang == 1 and rng.random() < 0.3:
             t = rng.choice(["---types---\n", "---functions---\n", "---types---\n---functions---\n"]) + t
         add("generated", t.encode())
-    for _ in range(3000 * scale):
+    for _ in range(2000 * scale):
         t = "".join(gen(rng) for _ in range(rng.randrange(1, 3))).encode()
         add("generated-mutated", mutate(rng, t, pcs))
     for _ in range(60 * scale):
@@ -312,7 +400,7 @@ def gen_inputs(ctx, lang):
             i = rng.randrange(len(stm))
             k = rng.randrange(1, 4)
             add("repo-statements", b"".join(stm[i:i + k]))
-        for _ in range(4000 * scale):
+        for _ in range(3000 * scale):
             i = rng.randrange(len(stm))
             k = rng.choice([1, 1, 2, 3])
             add("repo-mutated", mutate(rng, b"".join(stm[i:i + k]), pcs))
